@@ -11,3 +11,4 @@ pub mod deque;
 pub mod keymap;
 pub mod kernel;
 pub mod keytable;
+pub mod window;
